@@ -67,8 +67,9 @@ def post_height2code(val, result):
         r.ev('height2code', (float(val), result))
         if not (val != val):
             exp = math.floor(val / 100) if val <= 10000 else math.floor(val / 1000) * 10
-            if not (isinstance(result, str) and len(result) == 3 and result.isdigit()
-                    and int(result) == exp and 100 * int(result) <= val):
+            digits_ok = isinstance(result, str) and len(result) == 3 and \
+                (result.isdigit() or (val < 0 and result[0] == '-' and result[1:].isdigit()))   # signed floor below 0
+            if not (digits_ok and int(result) == exp and 100 * int(result) <= val):
                 r.brk('C18', 'height2code', 'not the three-digit floor', val=float(val), got=result)
     return True
 
